@@ -12,9 +12,9 @@ pub fn spec() -> Spec {
         replay,
         nshards: |_| 16,
         case_cap_s: |t| t.pick(120, 1200),
-        rule: "one case per (graph, ordered source-sink pair, entry point). Family 'digraph': all simple digraphs on <= 4 vertices and on 5 vertices with <= E edges (thorough: all), each also under a sparse non-monotone vertex labeling; family 'forward': all digraphs with edges i->j, i<j, on N vertices through the directed entry points and all undirected graphs on N vertices through the undirected entry points (this family is what exercises flow cancellation); family 'recorded': every network handed to min_vertex_cut_undirected while simplify runs on a corpus input (hook), checked by a Menger certificate. Source and sink are endpoints of some edge, distinct, and for vertex cuts not joined by an edge. Oracle: minimum over all source-side vertex subsets (edge cuts) / all subsets of the other vertices (vertex cuts); cut separates, has minimum size, no repeats, avoids source and sink; inside + source = vertices reachable from the source after removing the cut. Non-trivial = minimum cut size >= 1.",
+        rule: "one case per (graph, ordered source-sink pair, entry point). Family 'digraph': all simple digraphs on <= 4 vertices and on 5 vertices with <= E edges (thorough: all), each also under a sparse non-monotone vertex labeling; family 'forward': all digraphs with edges i->j, i<j, on N vertices through the directed entry points and all undirected graphs on N vertices through the undirected entry points (this family is what exercises flow cancellation); family 'sparse7' (quick tier; subsumed by 'forward' at the thorough tier): all undirected graphs on 7 vertices with exactly 9 edges, edge cuts only (9 edges on 7 vertices is the first size at which cancelling flow along an antiparallel twin can go wrong); family 'recorded': every network handed to min_vertex_cut_undirected while simplify runs on a corpus input (hook), checked by a Menger certificate. Source and sink are endpoints of some edge, distinct, and for vertex cuts not joined by an edge. Oracle: minimum over all source-side vertex subsets (edge cuts) / all subsets of the other vertices (vertex cuts); cut separates, has minimum size, no repeats, avoids source and sink; inside + source = vertices reachable from the source after removing the cut. Non-trivial = minimum cut size >= 1.",
         assumptions: &["a vertex that touches no edge is not a vertex of the graph (the functions take an edge list)"],
-        bounds: |t| json!({"digraph_max_vertices": 4, "digraph_5_vertices_max_edges": if t.is_thorough() { 20 } else { 6 }, "forward_vertices": t.pick(6, 7), "undirected_vertices": t.pick(6, 7)}),
+        bounds: |t| json!({"digraph_max_vertices": 4, "digraph_5_vertices_max_edges": if t.is_thorough() { 20 } else { 6 }, "forward_vertices": t.pick(6, 7), "undirected_vertices": t.pick(6, 7), "undirected_7_vertices_edge_counts_quick": [9]}),
     }
 }
 
@@ -38,6 +38,10 @@ fn reach(n: usize, edges: &[(usize, usize)], s: usize, removed_e: &BTreeSet<(usi
 
 /// `edges` on vertices 0..n as given to the entry point (before symmetrisation); `label` maps to the labels passed to the crate
 fn check_graph(ctx: &mut Ctx, family: &str, n: usize, edges: &[(usize, usize)], label: &[usize], directed_entry: bool, undirected_entry: bool) {
+    check_graph_sel(ctx, family, n, edges, label, directed_entry, undirected_entry, true)
+}
+
+fn check_graph_sel(ctx: &mut Ctx, family: &str, n: usize, edges: &[(usize, usize)], label: &[usize], directed_entry: bool, undirected_entry: bool, vertex_cuts: bool) {
     let touched: BTreeSet<usize> = edges.iter().flat_map(|&(a, b)| [a, b]).collect();
     let unlabel = |x: usize| label.iter().position(|&l| l == x);
     for undirected in [false, true] {
@@ -103,7 +107,7 @@ fn check_graph(ctx: &mut Ctx, family: &str, n: usize, edges: &[(usize, usize)], 
                     }
                 }
                 // --- vertex cut
-                if eff.contains(&(s, t)) {
+                if !vertex_cuts || eff.contains(&(s, t)) {
                     continue;
                 }
                 let others: Vec<usize> = (0..n).filter(|&v| v != s && v != t).collect();
@@ -324,6 +328,26 @@ fn run(ctx: &mut Ctx) {
                 if ctx.want_sample() && n == 4 && edges.len() == 5 {
                     ctx.sample(json!({"family": "digraph", "n": n, "edges": edges}));
                 }
+            }
+        }
+    }
+    // family sparse7: undirected graphs on 7 vertices with exactly 9 edges through the undirected edge-cut entry point, all
+    // labelings (BFS tie-breaking depends on the labels).  Flow cancellation along an antiparallel twin first
+    // goes wrong on 7 vertices with >= 9 edges; the complete 7-vertex family is thorough-tier only.
+    if !tier.is_thorough() {
+        let n = 7usize;
+        let pairs: Vec<(usize, usize)> = (0..n).flat_map(|a| ((a + 1)..n).map(move |b| (a, b))).collect();
+        let m = pairs.len();
+        let lo: u32 = std::env::var("C19_S7_LO").ok().and_then(|x| x.parse().ok()).unwrap_or(9);
+        let hi: u32 = std::env::var("C19_S7_HI").ok().and_then(|x| x.parse().ok()).unwrap_or(9);
+        for mask in 1u32..(1u32 << m) {
+            let c = mask.count_ones();
+            if c < lo || c > hi {
+                continue;
+            }
+            if ctx.take() {
+                let edges: Vec<(usize, usize)> = (0..m).filter(|&k| mask >> k & 1 == 1).map(|k| pairs[k]).collect();
+                check_graph_sel(ctx, "sparse7", n, &edges, &ident[..n], false, true, false);
             }
         }
     }
